@@ -54,6 +54,12 @@ func genS(t *rapid.T, depth int, pairs bool) *Node {
 		if rapid.IntRange(0, 2).Draw(t, "window") == 0 {
 			n.Spare = rapid.IntRange(1, 8).Draw(t, "spare")
 		}
+		if longLeft > 0 && rapid.IntRange(0, 399).Draw(t, "long") == 0 {
+			// at most one long leaf per tree (it may sit inside a join body and be walked once per outer element)
+			longLeft--
+			n.Xs = nil
+			n.Long = rapid.SampledFrom([]int{64, 64, 256, 256, 1024, 4096}).Draw(t, "pow") + rapid.IntRange(-1, 1).Draw(t, "off")
+		}
 	case "from":
 		n.Xs = []int{rapid.IntRange(0, 20).Draw(t, "x")}
 	case "nil":
@@ -319,7 +325,11 @@ func check(prop string, t interface{ Fatalf(string, ...any) }, sc Scenario) {
 	}
 }
 
+// longLeft: how many long slice leaves the tree being drawn may still get (the generators run on one goroutine)
+var longLeft int
+
 func propC14(t *rapid.T) {
+	longLeft = 1
 	d := rapid.IntRange(1, 6).Draw(t, "depth")
 	sc := Scenario{Root: "S", Tree: genS(t, d, false), Fail: rapid.IntRange(0, 40).Draw(t, "fail")}
 	if rapid.IntRange(0, 3).Draw(t, "second") == 0 {
@@ -345,6 +355,7 @@ func FuzzC15(f *testing.F) {
 func TestC15(t *testing.T) { rapid.Check(t, propC15) }
 
 func propC15(t *rapid.T) {
+	longLeft = 1
 	{
 		d := rapid.IntRange(2, 6).Draw(t, "depth")
 		sc := Scenario{Fail: rapid.IntRange(0, 40).Draw(t, "fail")}
